@@ -117,7 +117,7 @@ class RMAX(Learns):
         """initialize training process by creating the data structure to build an empirical model of the MDP"""
         assert self.rmax == np.max(mdp.reward_matrix)
 
-        self.n_states = len(mdp.reachable_states())
+        self.n_states = len(mdp.state_list)
         self.n_actions = len(mdp.action_list)
         self.rewards = np.zeros((self.n_states, self.n_actions))  # used to record the rewards R(s, a) seen
         self.transitions = np.zeros((self.n_states, self.n_actions, self.n_states))  # used to count the number of (s, a, s') transitions seen
